@@ -16,6 +16,17 @@ CHECKS = {
         design="4/C10"),
 }
 
+CHECKS["C19"] = dict(
+    text="Theorems about a Gallina model of the boundary-condition evaluators (grid exactness in (t, theta, z), "
+         "bracketing by neighbouring data, periodicity with the seam cell using the first column, scalar/array dispatch, "
+         "constructor shapes, set_bc acceptance), for all grids and data; tied to srlife.receiver by typed "
+         "correspondence of every evaluator kind on random objects and queries.",
+    note="Trusted: Coq kernel; scipy's RegularGridInterpolator/interp1d taken as multilinear interpolation with linear "
+         "extrapolation / range error (hypotheses of the model, exercised by every case); float angle 2*pi*u vs exact "
+         "fraction u compared at 1e-9.",
+    technique="Coq proof (induction over grids, Q arithmetic) + randomized typed correspondence by vm_compute",
+    design="4/C19")
+
 NOT_YET = {}
 
 def main():
